@@ -7,6 +7,15 @@ CHECKS = {
    technique="bounded-exhaustive enumeration of all action sequences (length<=4/5 over an 11/6-letter alphabet) through the real fold, checked against the statement",
    text="Every request/response action sequence up to the bound is folded by the real routing.getSPOEReqActions/getSPOERespActions and the SPOE variables are compared with the statement (first early response unchanged; later-wins header union; no-op only if all no-ops; no-op never displaces). Exhaustive within the alphabet and length bound; says nothing about header maps / lengths outside it.",
    note="alphabet of 11 request and 6 response actions; HeadersToRemove not asserted; Go map semantics; SPOE library action container"),
+
+ "C16": dict(level="exploration", engine="seqx-product", design="§3 C16",
+   technique="bounded-exhaustive enumeration of JSON documents x exclusion sets x entry points through the real obfuscator, compared leaf by leaf with an independent path matcher",
+   text="All JSON documents over keys {a,b} (colliding names at different depths), nesting depth <=2 plus depth-3 wrappers, arrays of length 1-2, times all exclusion sets of size <=2 from a 45-path universe, through Obfuscator.ObfuscateJSON (plain notation) and the HAR collector body path ($.request.body / $.response.body notation). Every leaf must be verbatim iff an exclusion lies on or above its path, else equal to its hash; structure preserved. Exhaustive within those bounds.",
+   note="document shapes/leaf values outside the alphabet are not covered; encoding/json parses the output; hash reference is the obfuscator applied to the lone leaf"),
+ "C20": dict(level="exploration", engine="seqx-product", design="§3 C20",
+   technique="bounded-exhaustive enumeration of all boolean observation scripts x settings through the real watcher loop in a virtual-time bubble",
+   text="Every boolean health-observation script up to length 10 (13 thorough) x 27 settings of (ConsecutiveN, MinStablePeriod, CooldownPeriod) is fed to the real StateChangeWatcher.run loop under testing/synctest virtual time; the recorded reactions are checked for strict alternation starting with 'unhealthy', >=N consecutive observations spanning the stable period before each, and silence during cool-down.",
+   note="check interval fixed to 1s; predicate/callback durations zero; only-if reading (missing reactions are not violations); Go synctest virtual clock"),
 }
 NA_REASON = "check not built yet in this round (work in progress; planned per DESIGN.md §3)"
 def main():
